@@ -400,6 +400,7 @@ func (fr *Frame) contractCall(in *ssa.Call, callee *ssa.Function, c *Contract, a
 		post[rn[0]] = res
 	}
 	if c.Fresh {
+		// a freshly allocated slice result may be written by the caller: give it a region
 		if res.Tuple != nil {
 			res.Tuple[0].Fresh = TTrue
 		} else {
@@ -422,6 +423,13 @@ func (fr *Frame) contractCall(in *ssa.Call, callee *ssa.Function, c *Contract, a
 	ex.addFact(Implies(fr.cur, And(facts...)))
 	// error tracking
 	fr.trackErr(name, res)
+	if c.Fresh {
+		if res.Tuple != nil {
+			res.Tuple[0] = mkRegionOf(fr, res.Tuple[0], name, in)
+		} else {
+			res = mkRegionOf(fr, res, name, in)
+		}
+	}
 	return res
 }
 
@@ -583,3 +591,15 @@ func (fr *Frame) publish(c *Cell) *Term {
 }
 
 var _ = token.NoPos
+
+// mkRegionOf gives a freshly allocated slice result a local region so the caller may write it.
+func mkRegionOf(fr *Frame, g *GVal, name string, in ssa.Instruction) *GVal {
+	ex := fr.ex
+	if sl, ok := g.Typ.Underlying().(*types.Slice); ok && g.T != nil {
+		es := ex.p.w.SortOf(sl.Elem())
+		cell := ex.newCell("fresh@"+name, types.NewArray(sl.Elem(), 0), SArray(SInt, es), in)
+		ex.st.cells[cell] = ex.p.w.SlArr(g.T)
+		return &GVal{Reg: cell, Off: IntLit(0), Len: ex.p.w.SlLen(g.T), Typ: g.Typ, Fresh: TTrue, NilT: ex.p.w.SlNil(g.T)}
+	}
+	return g
+}
